@@ -121,9 +121,16 @@ struct Probe {
     ticks: Rc<Cell<u64>>,
     /// step in which the main future was about to return (0 = not yet)
     finish_step: Rc<Cell<u64>>,
+    /// number of times the software was started, and per incarnation the last
+    /// step in which its background ticker ran
+    starts: Rc<Cell<u32>>,
+    last_tick_by_inc: Rc<std::cell::RefCell<Vec<u64>>>,
 }
 
 fn program(i: usize, sw: Sw, p: Probe, log: Log<String>) -> impl std::future::Future<Output = turmoil::Result> + 'static {
+    let inc = p.starts.get() as usize;
+    p.starts.set(p.starts.get() + 1);
+    p.last_tick_by_inc.borrow_mut().push(0);
     async move {
         let p2 = p.clone();
         tokio::task::spawn_local(async move {
@@ -131,6 +138,7 @@ fn program(i: usize, sw: Sw, p: Probe, log: Log<String>) -> impl std::future::Fu
                 tokio::time::sleep(Duration::from_millis(1)).await;
                 p2.ticks.set(p2.ticks.get() + 1);
                 p2.last_tick_step.set(rec::step());
+                p2.last_tick_by_inc.borrow_mut()[inc] = rec::step();
             }
         });
         let fs = p.finish_step.clone();
@@ -476,6 +484,23 @@ fn scenario(s: Scn) -> ScenarioOut {
                 }
             }
         }
+        // a bounced host's previous incarnation (finished or not) is gone for good
+        if ex.obs.o1 == Outcome::Ok && ex.obs.o2 != Outcome::None {
+            for i in &s.bounce_between {
+                let ticks = ex.probes[*i].last_tick_by_inc.borrow().clone();
+                if ticks.len() >= 2 && ex.final_step > ex.obs.s1 {
+                    out.count("bounced_software_observed_for_later_steps", 1);
+                    if ticks[0] > ex.obs.s1 {
+                        out.violate(
+                            "old-incarnation-polled",
+                            format!("C11|old-incarnation-polled|{mode}|kind={:?}", s.sw[*i].kind),
+                            format!("host n{i} was bounced after step {} but a task of its previous incarnation still ran in step {}", ex.obs.s1, ticks[0]),
+                            desc.clone(),
+                        );
+                    }
+                }
+            }
+        }
         for (i, after) in &ex.crashed_after {
             if ex.final_step > *after {
                 out.count("crashed_software_observed_for_later_steps", 1);
@@ -571,6 +596,6 @@ fn fin() -> Finish<'static> {
             "a finish exactly on a step boundary may be attributed to either adjacent step".into(),
         ],
         min_distinct: 100,
-        required_counters: vec!["panics_surfaced", "software_errors_surfaced", "duration_errors", "run_ok", "finished_software_observed_for_later_steps", "crashed_software_observed_for_later_steps", "zero_client_scenarios", "panics_surfaced_after_bounce"],
+        required_counters: vec!["panics_surfaced", "software_errors_surfaced", "duration_errors", "run_ok", "finished_software_observed_for_later_steps", "crashed_software_observed_for_later_steps", "zero_client_scenarios", "panics_surfaced_after_bounce", "bounced_software_observed_for_later_steps"],
     }
 }
